@@ -2,32 +2,36 @@
 # development tool: confirm a seeded change in its scratch worktree and store it under /verif/seeded/
 # usage: confirm_mutation.sh <worktree> <mdir> <seeded-id> <property>
 wt="$1"; m="$2"; id="$3"; prop="$4"
+# optional: FEATURES="--features x,y" for the demo; MIRI=1 to run the demo under Miri
+FEATURES="${FEATURES:-}"
+if [ "${MIRI:-0}" = 1 ]; then DEMO="cargo +nightly miri test --offline $FEATURES --test demo"; else DEMO="cargo test --offline $FEATURES --test demo"; fi
 export CARGO_NET_OFFLINE=true
 cd "$wt" || exit 2
 git checkout -q -- src 2>/dev/null; rm -rf tests/demo.rs
 mkdir -p tests; cp "$m/demo.rs" tests/demo.rs
-clean=$(cargo test --offline --test demo 2>&1 | grep -E "^test result" | head -1)
+clean=$($DEMO 2>&1 | grep -E "^test result|Undefined Behavior" | head -1)
 git apply "$m/patch.diff" || { echo "$id: patch does not apply"; exit 1; }
 build=$(cargo build --offline --features verif-hooks,serde,ipnetwork,cidr 2>&1 | grep -cE "^error")
 suite=$(cargo test --workspace --offline --lib 2>&1 | grep -E "^test result" | head -1)
 doc=$(cargo test --workspace --offline --doc 2>&1 | grep -E "^test result" | head -1)
-mut=$(cargo test --offline --test demo 2>&1 | grep -E "^test result" | head -1)
+mut=$($DEMO 2>&1 | grep -E "^test result|Undefined Behavior" | head -1)
 git checkout -q -- src; rm -rf tests
 echo "$id: demo clean: [$clean] | demo mutated: [$mut] | suite mutated: [$suite] doc: [$doc] build errors: $build"
 ok=1
 echo "$clean" | grep -q "ok\." || ok=0
-echo "$mut" | grep -q "FAILED" || ok=0
+echo "$mut" | grep -q "FAILED\|Undefined Behavior" || ok=0
 echo "$suite" | grep -q "ok\. 150 passed" || ok=0
 if [ $ok = 1 ]; then
     d=/verif/seeded/$id; mkdir -p $d
     cp "$m/patch.diff" "$m/demo.rs" $d/
     cp "$m/README.md" $d/AUTHOR_README.md 2>/dev/null
-    python3 - "$d" "$id" "$prop" "$clean" "$mut" "$suite" "$doc" <<'PY'
+    python3 - "$d" "$id" "$prop" "$clean" "$mut" "$suite" "$doc" "$DEMO" <<'PY'
 import json, sys
-d, id_, prop, clean, mut, suite, doc = sys.argv[1:]
+d, id_, prop, clean, mut, suite, doc = sys.argv[1:8]
 json.dump({"id": id_, "breaks_property": prop, "needs_to_manifest": "see AUTHOR_README.md",
   "confirmed": {"demo_on_clean_tree": clean, "demo_with_change": mut, "existing_suite_with_change": suite, "doctests_with_change": doc},
-  "what_was_run": ["cargo test --offline --test demo (clean worktree)", "git apply patch.diff", "cargo build --offline --features verif-hooks,serde,ipnetwork,cidr", "cargo test --workspace --offline --lib / --doc", "cargo test --offline --test demo"],
+  "demo_command": sys.argv[8] if len(sys.argv) > 8 else "cargo test --offline --test demo",
+  "what_was_run": ["demo command on the clean worktree", "git apply patch.diff", "cargo build --offline --features verif-hooks,serde,ipnetwork,cidr", "cargo test --workspace --offline --lib / --doc", "cargo test --offline --test demo"],
   "detected_by": []}, open(d + "/meta.json", "w"), indent=1)
 PY
     echo "$id: CONFIRMED -> $d"
